@@ -12,6 +12,7 @@ import (
 
 	v1 "k8s.io/api/core/v1"
 	metav1 "k8s.io/apimachinery/pkg/apis/meta/v1"
+	"k8s.io/client-go/tools/cache"
 )
 
 type verifC13Obj struct {
@@ -96,6 +97,16 @@ func verifC13Run(t *testing.T, cs verifC13Case, w *bufio.Writer) {
 				h.OnUpdate(verifEndpoints(*op.Old), verifEndpoints(op.Obj))
 			case "update":
 				h.Update(verifEndpoints(op.Obj))
+			case "other_add": // an object of another type
+				h.OnAdd("not endpoints", false)
+			case "other_delete":
+				h.OnDelete(&v1.Pod{})
+			case "other_update_old":
+				h.OnUpdate("not endpoints", verifEndpoints(op.Obj))
+			case "other_update_new":
+				h.OnUpdate(verifEndpoints(op.Obj), &v1.Service{})
+			case "tombstone": // what the informer delivers when it missed the delete event
+				h.OnDelete(cache.DeletedFinalStateUnknown{Key: "ns/svc", Obj: verifEndpoints(op.Obj)})
 			default:
 				t.Fatalf("bad op %s", op.Op)
 			}
